@@ -60,6 +60,7 @@ class Contract:
         self.rename = None
         self.closures = {}
         self.btree_loops = []
+        self.chars_iters = []
         self.let_types = {}
         self.rename_types = {}
         self.loop_iter = {}
@@ -129,6 +130,9 @@ def parse_contracts(path):
         elif word == 'let_type':
             v, ty = rest.split(None, 1)
             cur.let_types[v] = ty
+            last = None
+        elif word == 'chars_iters':
+            cur.chars_iters = rest.split()
             last = None
         elif word == 'btree_loops':
             cur.btree_loops = rest.split()
@@ -330,7 +334,7 @@ def apply_rewrites(body, rel, base_line, log):
     def r1(m):
         note('R1', m.start(), m.group(0))
         return '.%s(|x_r1| %s(x_r1))' % (m.group(1), m.group(2))
-    body = re.sub(r'\.(map|map_err|and_then)\(\s*((?:[A-Za-z_][A-Za-z0-9_]*::)+[A-Za-z_][A-Za-z0-9_]*)\s*\)', r1, body)
+    body = re.sub(r'\.(map|map_err|and_then|all|any)\(\s*((?:[A-Za-z_][A-Za-z0-9_]*::)+[A-Za-z_][A-Za-z0-9_]*)\s*\)', r1, body)
 
     # R2: closure parameter `_`
     def r2(m):
@@ -352,6 +356,8 @@ def apply_rewrites(body, rel, base_line, log):
         note('R17', m.start(), m.group(0))
         return 'vec_iter_any(&%s, ' % m.group(1)
     body = re.sub(r'((?:[A-Za-z_][A-Za-z0-9_]*\.)*[A-Za-z_][A-Za-z0-9_]*)\s*\.iter\(\)\s*\.any\(', r17, body)
+
+    # R17b: `it.all(f)` on a `Chars` iterator (named by the contract) is handled in emit_fn (needs the variable name)
 
     # R10: `(ident as f64)` -> `(cast_i128_as_f64(ident))`
     def r10(m):
@@ -1072,6 +1078,11 @@ class Assembler:
                 if n15 != 1:
                     raise ExtractError('lost anchor: fn %s: let %s occurs %d times' % (key, lv, n15))
                 log.append({'rule': 'R15', 'where': '%s:%d' % (c.src, base_line), 'text': 'let %s: %s' % (lv, lty)})
+            for civ in c.chars_iters:
+                # R17b: `<chars>.all(f)` -> `chars_all(&mut <chars>, f)` (boundary fn; same reason as R17)
+                b, n17 = re.subn(r'\b%s\s*\.all\(' % re.escape(civ), 'chars_all(&mut %s, ' % civ, b)
+                if n17:
+                    log.append({'rule': 'R17b', 'where': '%s:%d' % (c.src, base_line), 'text': '%s.all( -> chars_all(&mut %s, ' % (civ, civ)})
             if c.btree_loops:
                 b = rewrite_for_btree(b, c.btree_loops, c.src, base_line, log)
             if c.rename_calls:
